@@ -277,11 +277,15 @@ class MembershipProtocol(Entity):
         if target_name is None or target_name not in self._members:
             return []
 
-        self._members[target_name]
+        info = self._members[target_name]
 
         # If we already got an ack, skip
         if target_name not in self._pending_acks:
             return []
+
+        # No direct ack within the timeout: suspect the target (SWIM). An ack or
+        # ping from it revives it; otherwise the suspicion timeout declares it DEAD.
+        self._suspect_member(info, self.now.to_seconds())
 
         # Pick random delegates (excluding self and target)
         delegates = [
